@@ -254,6 +254,58 @@ def case_to_df(prog, letters):
     return out
 
 
+def case_df_history(prog, letters):
+    """one process, several exports / imports in a row: a later call on an array whose dimensions have the SAME names (and item
+    sets) as an earlier one's, but list their items in another order, must be as faithful as the first call"""
+    out = []
+    dw = DW(prog)
+    it = dw.it
+    FA = prog.cls("FlodymArray")
+    first = dw.array(letters, name="u", zeros=False)
+    k1, df1 = run_guarded(lambda: it.call_method(first, "to_df", index=False))
+    if k1 == "ok":
+        run_guarded(lambda: it.call(it.get_attr(FA, "from_df"), [], dict(dims=dw.dimset(letters), df=df1)))
+        run_guarded(lambda: it.call_method(first, "to_df", index=True, sparse=True))
+    # a second model in the same process: same dimension names and items, items listed in reverse order
+    dims2 = []
+    for l in letters:
+        name, items, dt = DIMS[l]
+        kw = dict(name=name, letter=l, items=list(reversed(items)))
+        if dt:
+            kw["dtype"] = it.builtin(dt)
+        dims2.append(it.construct(prog.cls("Dimension"), [], kw))
+
+    def ds2():
+        return it.construct(prog.cls("DimensionSet"), [], dict(dim_list=list(dims2)))
+    second = it.construct(FA, [], dict(dims=ds2(), values=dw.values(letters, "w", zeros=False), name="w"))
+    src = dw.entries(second)
+    base = {"dims": list(letters), "history": "to_df / from_df of a first array; then a second array whose dimensions carry the same names and items in reverse order"}
+    for index in (False, True):
+        inp = dict(base, step=f"to_df(index={index}) of the second array, then from_df")
+        kind, df = run_guarded(lambda: it.call_method(second, "to_df", index=index))
+        if kind != "ok" or not isinstance(df, PD.Frame):
+            out.append((inp, False, f"to_df ended with {kind}: {getattr(df, 'msg', df)!s:.160}", "FlodymArray.to_df"))
+            continue
+        flat = flat_frame(df)
+        names = [DIMS[l][0] for l in letters]
+        seen = {}
+        ci, vi = [flat._ci(n) for n in names], flat._ci("value")
+        for r in flat.rows:
+            seen[tuple(norm_label(r[i]) for i in ci)] = r[vi]
+        bad = None
+        if set(seen) != set(src) or any(not (isinstance(seen[k], Rat) and seen[k] == v) for k, v in src.items()):
+            bad = "rows do not carry the entries under their labels"
+        out.append((dict(inp, checked="export"), bad is None, f"to_df after an earlier export/import of a same-named dimension: {bad}", "FlodymArray.to_df"))
+        kind2, back = run_guarded(lambda: it.call(it.get_attr(FA, "from_df"), [], dict(dims=ds2(), df=df)))
+        if kind2 != "ok":
+            out.append((inp, False, f"from_df refuses the frame exported by to_df: {getattr(back, 'exc_name', kind2)}: {getattr(back, 'msg', back)!s:.200}", "DataFrameToFlodymDataConverter.get_target_values"))
+            continue
+        bad = same_array(dw, back, src, letters)
+        out.append((inp, bad is None, f"from_df(to_df(x)) differs from x when an array with same-named dimensions (items in another order) was imported before: {bad}",
+                    "DataFrameToFlodymDataConverter._check_data_complete"))
+    return out
+
+
 # ---------------------------------------------------------------------------- faults (C12)
 FAULTS = ["none", "drop-first", "drop-middle", "drop-last", "duplicate", "unknown-item", "nan-value", "missing-column", "missing-single-item-column",
           "two-odd-value-columns", "unknown+drop", "duplicate+drop", "nan+unknown", "duplicate-after-type-conversion"]
